@@ -174,9 +174,26 @@ def parse_failing(out):
     return [int(x.replace('%nat', '').strip()) for x in body.split(';') if x.strip()]
 
 
-def run_cases(pid, terms, tie_import, check_fn, workdir, shard=300, timeout=900, jobs=16):
+def run_cases(pid, terms, tie_import, check_fn, workdir, shard=300, timeout=900, jobs=16, ties=None):
     """terms: list of Coq terms (strings) of the case type of Tie/<pid>.v.  Evaluates
-    check_fn on each with vm_compute; returns (failing global indices, errors)."""
+    check_fn on each with vm_compute; returns (failing global indices, errors).
+    A term may also be a pair (family, term): the families of H.TIES = {family: (import, check function)} are
+    evaluated in separate files (record types of different ties may share field names)."""
+    if ties and any(isinstance(t, tuple) for t in terms):
+        failing, errors = [], []
+        fams = sorted({t[0] for t in terms if isinstance(t, tuple)})
+        for fam in fams:
+            idx = [i for i, t in enumerate(terms) if isinstance(t, tuple) and t[0] == fam]
+            imp, fn = ties[fam]
+            f2, e2 = run_cases(pid + '_' + fam, [terms[i][1] for i in idx], imp, fn, os.path.join(workdir, 'tie_' + fam), shard, timeout, jobs)
+            failing += [idx[j] for j in f2]
+            errors += e2
+        rest = [i for i, t in enumerate(terms) if not isinstance(t, tuple)]
+        if rest:
+            f2, e2 = run_cases(pid, [terms[i] for i in rest], tie_import, check_fn, os.path.join(workdir, 'tie_default'), shard, timeout, jobs)
+            failing += [rest[j] for j in f2]
+            errors += e2
+        return sorted(failing), errors
     cdir = os.path.join(workdir, 'cases')
     shutil.rmtree(cdir, ignore_errors=True)
     os.makedirs(cdir)
@@ -447,7 +464,7 @@ def main_check(h, tier, seed, replay=None):
             report['tie']['skipped'] = 'Tie/%s.vo did not build' % pid
         else:
             shard = getattr(h, 'SHARD', None) or min(300, max(10, -(-len(terms) // 16)))
-            failing, errors = run_cases(pid, terms, h.TIE_IMPORT, h.CHECK_FN, workdir, shard=shard)
+            failing, errors = run_cases(pid, terms, h.TIE_IMPORT, h.CHECK_FN, workdir, shard=shard, ties=getattr(h, 'TIES', None))
             tie_fail = [idx_of_term[j] for j in failing]
             if errors:
                 broken.append('tie-B:coqc-error')
